@@ -439,14 +439,6 @@ def swap_gate(tableau, qubit1, qubit2):
     assert qubit1 < n_qubits and qubit2 < n_qubits
     tableau.table = column_swap(tableau.table, qubit1, qubit2)
     tableau.table = column_swap(tableau.table, qubit1 + n_qubits, qubit2 + n_qubits)
-    tableau.phase[[qubit1, qubit2]] = tableau.phase[[qubit2, qubit1]]
-    tableau.phase[[qubit1 + n_qubits, qubit2 + n_qubits]] = tableau.phase[
-        [qubit2 + n_qubits, qubit1 + n_qubits]
-    ]
-    tableau.iphase[[qubit1, qubit2]] = tableau.iphase[[qubit2, qubit1]]
-    tableau.iphase[[qubit1 + n_qubits, qubit2 + n_qubits]] = tableau.iphase[
-        [qubit2 + n_qubits, qubit1 + n_qubits]
-    ]
     return tableau
 
 
